@@ -1,5 +1,5 @@
 /* @harness c02.dstream_step
- * @props C02 C10 C03 C14
+ * @props C02 C10
  * @tier quick
  * @functions ZSTD_decompressStream ZSTD_decompressContinueStream ZSTD_nextSrcSizeToDecompressWithInputSize ZSTD_nextSrcSizeToDecompress ZSTD_nextInputType ZSTD_isSkipFrame ZSTD_limitCopy ZSTD_checkOutBuffer
  * @bounds ONE call of the streaming decoder from an ARBITRARY mid-frame state satisfying the stream invariant I_d (inductive step => any call history, any segmentation): stream stage read / load / flush (one instance each); frame stage block header / block (raw, RLE, compressed; last or not) / checksum / skippable content; any partially loaded input, any partially flushed output; block size limit 4..8 (production: 1 KiB..128 KiB; the stream layer is generic in it), window 1..2 block sizes, content size unknown or any value <= 40; internal buffers of any size allowed by the sizing rule; per call 0..(block + 4) new input bytes, output room 0..(block + 8), at most 3 (stable output) / 2 (buffered output) invocations of the frame decoder inside the call (further iterations of the same loop start again from states satisfying I_d); stable output buffer (quick instances) or buffered output (thorough instances: 16-20 min each)
